@@ -21,6 +21,20 @@ def obligations(tier, ctx):
     obs = lossless_obligations(tier, ctx, keep=aliased_or_nested if tier == "quick" else None)
     for o in obs:
         o.call = o.call.replace("H.lossless(", "H.lossless(")
+    import subprocess, json
+    from symcheck import runner
+    code = "import sys, json; sys.path.insert(0, %r); import harness.h_models as H; print('PAIRS ' + json.dumps(H.same_name_pairs()))" % ctx["root"]
+    p = subprocess.run([runner.PY, "-c", code], env=runner.base_env(runner.Ob(name="x", params=[], pre=[], call="", backend="F")), capture_output=True, text=True)
+    pairs = []
+    for l in p.stdout.splitlines():
+        if l.startswith("PAIRS "):
+            pairs = json.loads(l[6:])
+    L = 1 if tier == "quick" else 2
+    for a, b in pairs:
+        nm = a.split(".")[-3][:5] + a.split(".")[-2][:6] + "_then_" + b.split(".")[-3][:5] + b.split(".")[-2][:6] + "_" + a.split(".")[-1]
+        obs.append(Ob(name="pair_" + nm, params=[("s0", "str"), ("s1", "str"), ("i0", "int"), ("b0", "bool")], pre=[f"len(s0) <= {L}", f"len(s1) <= {L}"],
+                      call=f"H.pair_order({a!r}, {b!r}, s0, s1, i0, b0)", backend="F", timeout=300,
+                      family="same-named model classes used one after the other in one process (order-dependent state)"))
     S = [("s", "str")]
     obs += [
         Ob(name="ser_elicitation", params=[("message", "str"), ("leaf", "str"), ("title", "str")], pre=["len(message) <= 2", "len(leaf) <= 2", "1 <= len(title) <= 2"],
